@@ -1,26 +1,46 @@
+//! mon-wire: C04 (certificates are tamper-evident and survive the wire) and C05 (decoders never
+//! crash and round-trip honest values).
+//!
+//!   mon-wire C04|C05 [--tier quick|thorough] [--replay FILE]
+//!   mon-wire C05-child ... / C05-one ...     (internal: child processes of the C05 monitor)
+mod alloc2;
 mod c04;
+mod c05;
 mod certgen;
+mod corpus;
+mod entry;
+mod honest;
 mod jsonfmt;
+mod mutate;
 mod util;
 
 use vcore::{Monitor, Tier};
 
 #[global_allocator]
-static A: vcore::alloc::Counting = vcore::alloc::Counting;
+static A: alloc2::Tracing = alloc2::Tracing;
 
 fn main() {
+    let raw: Vec<String> = std::env::args().collect();
+    match raw.get(1).map(|s| s.as_str()) {
+        Some("C05-child") => c05::child_main(&raw[2..]),
+        Some("C05-one") => c05::one_main(&raw[2..]),
+        _ => {}
+    }
     let args = vcore::parse_args();
     vcore::install_panic_hook();
     let threads = vcore::default_threads();
     match args.prop.as_str() {
         "C04" => {
+            if let Some(f) = &args.replay {
+                c04::replay(&args, f);
+            }
             let mut mon = Monitor::new(&args);
             let Some(shared) = c04::prepare(&mut mon) else {
                 mon.finish(c04::RULE, &c04::ASSUMPTIONS, 1);
             };
             let (shards, per) = match args.tier {
-                Tier::Quick => (16, 6),
-                Tier::Thorough => (64, 60),
+                Tier::Quick => (16, 16),
+                Tier::Thorough => (64, 150),
             };
             vcore::run_shards(&mut mon, shards, threads, |s, m| {
                 if let Err(p) = vcore::catch(|| c04::run_shard(s, m, &shared, per)) {
@@ -28,6 +48,12 @@ fn main() {
                 }
             });
             mon.finish(c04::RULE, &c04::ASSUMPTIONS, 500);
+        }
+        "C05" => {
+            if let Some(f) = &args.replay {
+                c05::replay(&args, f);
+            }
+            c05::run(&args);
         }
         other => {
             eprintln!("mon-wire: unknown property {other}");
